@@ -50,7 +50,10 @@ func c12Stress(c *Ctx, name string, seed int64, auto bool, workers, opsPer int) 
 		c.HarnessError("mknod: %v", err)
 		return
 	}
+	// d0..d2 exist; "missing" never does and "flicker" comes and goes (directory
+	// errors are then written by every query of an auto-refresh cache)
 	dirs := []string{filepath.Join(root, "d0"), filepath.Join(root, "d1"), filepath.Join(root, "d2")}
+	extra := []string{filepath.Join(root, "missing"), filepath.Join(root, "flicker")}
 	r0 := rand.New(rand.NewSource(seed))
 	mkSpec := func(r *rand.Rand, tag string) *specs.Spec {
 		s := genSpec(r, SpecGen{Vendor: "vendor.com", Class: pickStr(r, "gpu", "net"), Marker: tag, DevNames: []string{"dev0", "dev1", "dev2"}[:1+r.Intn(3)], HostNodes: hosts[:5]})
@@ -62,6 +65,7 @@ func c12Stress(c *Ctx, name string, seed int64, auto bool, workers, opsPer int) 
 			must(os.WriteFile(filepath.Join(d, fmt.Sprintf("s%d.json", k)), specBytes(mkSpec(r0, fmt.Sprintf("i%d%d", i, k)), "json"), 0o644))
 		}
 	}
+	dirs = append(dirs, extra...)
 	cache, _ := cdi.NewCache(cdi.WithSpecDirs(dirs...), cdi.WithAutoRefresh(auto))
 	defer func() {
 		if stuck == "" { // a deadlocked cache cannot be reconfigured (it would hang us too)
@@ -130,7 +134,14 @@ func c12Stress(c *Ctx, name string, seed int64, auto bool, workers, opsPer int) 
 		defer mg.Done()
 		r := rand.New(rand.NewSource(seed ^ 0x5eed))
 		for i := 0; !stop.Load(); i++ {
-			d := dirs[r.Intn(len(dirs))]
+			if i%7 == 0 {
+				if i%14 == 0 {
+					os.MkdirAll(extra[1], 0o755)
+				} else {
+					os.RemoveAll(extra[1])
+				}
+			}
+			d := dirs[r.Intn(3)]
 			p := filepath.Join(d, fmt.Sprintf("m%d.json", r.Intn(3)))
 			if chance(r, 70) {
 				tmp := p + ".tmp"
